@@ -21,7 +21,11 @@ def run(tier):
         "top-level message must be rejected; decrypt path: scoped PDUs (value length 0..39) whose right-edge elements declare 1..16 octets more than the ciphertext delivers, DES and AES, after 3 "
         "different encrypt histories on the same key object, must be rejected." % (("all 256 octets", "30 symbols") if tier == "thorough" else ("30 symbols", "8 symbols"))
     )
-    rec.assume("a Report PDU body is carried opaquely by the library (never decoded), so lengths inside it are not judged")
+    rec.assume(
+        "a Report PDU body is carried opaquely by the library (never decoded), so lengths inside it are not judged",
+        "msgSecurityParameters is a message layer of its own (serialized USM SEQUENCE inside an OCTET STRING): bytes after that SEQUENCE, with all enclosing lengths consistent, count as bytes after a message and must cause rejection; "
+        "extra elements inside other SEQUENCEs are not judged",
+    )
     rsx.run("c16", tier, rec)
     n = rec.counters["rsx_evaluations"]
     d = rec.counters["rsx_decodable_elements"] * rec.counters["rsx_suffixes"] // max(1, 19)
